@@ -164,6 +164,8 @@ def check(model: Model, tier: str):
     obs += rules.rule_defassign(model, [model.func(a) for a in ANCHORS], exc, domain="quantifier")
     obs += rule_result_shape(model)
     obs += rule_result_kind(model)
+    from ..normguard import rule_residual_gauge
+    obs += rule_residual_gauge(model, "_amen._amen_mm_python")
     # the caller's tolerance reaches the routine that truncates (added after seed S5-C11-2: a keyword rewrite of the call dropped `eps`)
     from .c01 import eps_flow
     for caller, callee in (("_amen.amen_mm", "torchtt._amen._amen_mm_python"), ("_amen.amen_mv", "torchtt._amen._amen_mm_python"),
